@@ -3,7 +3,10 @@ import json, os
 from . import core
 from .runner import PropCheck
 
-OUT_OF_RANGE = [0, -1, -2, 65, 66, 100, 127, 128, 129, 130, 1000, 2147483647, -2147483648]
+OUT_OF_RANGE = [0, -1, -2, 65, 66, 100, 127, 128, 129, 130, 1000, 2147483647, -2147483648,
+                # numbers that coincide with a known signal in their low 8 / 16 bits (a narrowed table field)
+                256 + 15, 256 + 6, 256 + 19, 256 + 17, 256 + 20, 512 + 2, 1024 + 15, 65536 + 15, 65536 + 9, -256 + 15, -65536 + 1,
+                (1 << 31) - 256 + 15]
 
 
 def ops_all():
